@@ -31,6 +31,7 @@ func c17refOK(s string) bool {
 }
 
 var c17parseN int
+var c17prev string
 
 var c17plainSafe = regexp.MustCompile(`^[A-Za-z0-9][A-Za-z0-9._/#@-]*$`)
 var c17dateLike = regexp.MustCompile(`^[0-9]{1,4}-[0-9]{1,2}-[0-9]{1,2}`)
@@ -63,6 +64,27 @@ func c17one(s string, want string, form string) {
 			oracleFail("C17", "marshal-key", c, fmt.Sprintf("marshalled key %q != FullSource %q", k, got))
 			return
 		}
+	}
+	// a plugin list that was decoded earlier keeps its plugins when the same variable decodes another document
+	if c17parseN%11 == 3 && strings.ToValidUTF8(s, "\uFFFD") == s && c17prev != "" {
+		docA, _ := json.Marshal([]any{map[string]any{c17prev: nil}, map[string]any{"kept/second#v2": map[string]any{"k": "v"}}})
+		docB, _ := json.Marshal([]any{map[string]any{s: map[string]any{"other": 1}}})
+		var ps pipeline.Plugins
+		if ps.UnmarshalJSON(docA) == nil && len(ps) == 2 {
+			kept := ps
+			want := []string{kept[0].FullSource(), kept[1].FullSource()}
+			wantJSON, _ := json.Marshal(kept)
+			errB := ps.UnmarshalJSON(docB)
+			gotJSON, _ := json.Marshal(kept)
+			if kept[0].FullSource() != want[0] || kept[1].FullSource() != want[1] || string(gotJSON) != string(wantJSON) {
+				oracleFail("C17", "earlier-result-changed", c, fmt.Sprintf("the plugin list decoded from %s was %s; after the same variable decoded %s (err %v) the list kept from before reads %s", docA, wantJSON, docB, errB, gotJSON))
+				return
+			}
+			stat("C17", "decoded-twice")
+		}
+	}
+	if s != "" {
+		c17prev = s
 	}
 	// interpolation passes that substitute nothing leave the source as it is written (and with it the identity)
 	if c17parseN%5 == 0 && !strings.Contains(s, "{{") && strings.ToValidUTF8(s, "\uFFFD") == s {
